@@ -103,6 +103,8 @@ MANUAL = [
      "optimize()/rewrite() inherit the rewrite-rule findings recorded under C05: attributed only when a single rule unit applied alone (or the stepwise replay of the pipeline) reproduces a violation that is itself a recorded C05 finding"),
     ("C03", "bn_training_mode_unused_stats", r"(violation_values|violation_not_executable):.*",
      "BatchNormalization<training_mode=1> whose running-statistics outputs are dead: onnx_ir RemoveUnusedNodesPass (part of optimize/rewrite) drops training_mode, switching to inference statistics"),
+    ("C03", "bn_training_and_inverted_clip_chain", r"violation_values:.*",
+     "two recorded findings in one model (training-mode BatchNormalization whose statistics are only read through nodes that constant folding removes + Clip(Clip(x)) with an inverted interval): neither single-finding predicate holds alone"),
     ("C04", "reduces_to_known_rule_finding", r"(invalid|override|raise|signature):.*", "see C03: inherited rewrite-rule findings (validity / override / exceptions)"),
     ("C04", "cse_drops_output_type", r"(invalid:checker|signature:outputs-elemtype):optimize.*", "onnx_ir CommonSubexpressionEliminationPass (last stage of optimize_ir) merges a typed graph output with an untyped duplicate (Identity of the same input, left over from an inlined If) and keeps the untyped value: the output loses its type, the model is invalid"),
     ("C04", "bn_training_mode_unused_stats", r"(invalid|override):.*", "see C03: training-mode BatchNormalization after dead-output removal is invalid (3 outputs without training_mode)"),
